@@ -8,6 +8,7 @@ the configured timeouts + margin with no association/provider thread left and bo
 notification fired exactly once.  (2)-(4) are evaluated by the Lean `Outcome.verdict` through the
 driver AND by the Python restatement below (the two must agree).
 """
+from harness import poolinit as _e2e_exit
 from harness import e2e
 
 TERM = {"EVT_ESTABLISHED": "established", "EVT_RELEASED": "released", "EVT_ABORTED": "aborted", "EVT_REJECTED": "rejected"}
@@ -74,6 +75,9 @@ def run(ctx):
     for req_last, acc in (("release", "release"), ("release", "abort"), ("abort", "release"), ("abort", "abort")):
         for d in (0, 1, 3):
             scenarios.append({"req": ["echo", req_last], "acc": acc, "acc_delay_ms": d, "reject": False, "shake": True, "timeouts": 0.5})
+    # accepted, but no proposed context is acceptable: the requestor aborts; both sides must still end as aborted
+    for d in (0, 1):
+        scenarios.append({"req": ["idle"], "acc": "none", "acc_delay_ms": d, "reject": False, "shake": bool(d), "timeouts": 1.0, "nocx": True})
     results = e2e.run_many(scenarios, ctx.seed, workers=12)
     good = [r for r in results if "harness_error" not in r and not r.get("hang") and not r.get("inconclusive")]
     for r in results:
@@ -92,7 +96,7 @@ def run(ctx):
         sc = r["script"]
         case = ["scenario", sc, q[1], q[2]]
         est = "established" in q[1][4]
-        ctx.case(case, nontrivial=est, kind=f"{sc['req'][-1]}/{sc['acc']}" + ("/rej" if sc["reject"] else ""))
+        ctx.case(case, nontrivial=est or bool(sc.get("nocx")), kind=f"{sc['req'][-1]}/{sc['acc']}" + ("/rej" if sc["reject"] else "") + ("/no-acceptable-context" if sc.get("nocx") else ""))
         pv = py_verdict(q[1], q[2])
         if pv != lean_v:
             ctx.diff(case, pv, lean_v, "python oracle and Lean Outcome.verdict disagree")
@@ -460,7 +464,7 @@ def query_break_check(ctx):
     import multiprocessing as mp
 
     jobs = [(k, e) for k in ("find", "get") for e in ("acceptor-release", "network-timeout")]
-    pool = mp.get_context("fork").Pool(processes=4, maxtasksperchild=1)
+    pool = mp.get_context("fork").Pool(processes=4, maxtasksperchild=1, initializer=_e2e_exit.no_join_at_exit)
     try:
         results = pool.map(query_break_scenario, jobs)
     finally:
@@ -485,7 +489,7 @@ def pause_check(ctx):
     from translate import pause as tr_pause
 
     shape, _ = tr_pause.extract()
-    pool = mp.get_context("fork").Pool(processes=2, maxtasksperchild=1)
+    pool = mp.get_context("fork").Pool(processes=2, maxtasksperchild=1, initializer=_e2e_exit.no_join_at_exit)
     try:
         results = pool.map(pause_scenario, ["overlap"] * 2 + ["collision"] * ctx.n(2, 8))
     finally:
